@@ -754,6 +754,46 @@ Proof.
            eapply wp_done; [|exact HQ]. intros Q' HQ'. eapply wp_fb; eauto.
 Qed.
 
+(* ------------------------------------------------------------------ Buffer -> Box<[Word]> *)
+Definition box_blks (bx : option Z * list Z) : list (Z * Z) :=
+  match fst bx with Some p => [(p, len (snd bx))] | None => [] end.
+
+(** into_boxed_slice hands the allocator the layout the block was allocated with, and the box owns a block
+    of exactly len words *)
+Theorem wp_into_boxed_slice b F m (Q : option Z * list Z -> mem -> Prop) :
+  Own (bblk b :: F) m ->
+  (forall bx m', Own (box_blks bx ++ F) m' -> snd bx = bws b -> Q bx m') ->
+  safe (into_boxed_slice b) m Q.
+Proof.
+  intros HO HQ. unfold into_boxed_slice. destruct (Z.eqb_spec (len (bws b)) 0) as [E|E].
+  - apply safe_bind. eapply wp_drop; [exact HO|]. intros m1 HO1. apply safe_ret. apply HQ; [exact HO1|].
+    cbn [snd]. destruct (bws b); [reflexivity|]. rewrite len_cons in E. pose proof (len_nonneg l). lia.
+  - apply safe_bind. eapply wp_deallocate_raw; [exact HO|]. intros m1 HO1.
+    apply safe_bind. eapply wp_raw_alloc; [exact HO1|]. intros p m2 HO2. apply safe_ret. apply HQ; [exact HO2 | reflexivity].
+Qed.
+
+(** dropping the box frees its block with the size it has *)
+Theorem wp_drop_box bx F m (Q : unit -> mem -> Prop) :
+  Own (box_blks bx ++ F) m -> (forall m', Own F m' -> Q tt m') -> safe (drop_box bx) m Q.
+Proof.
+  intros HO HQ. unfold drop_box, box_blks in *. destruct (fst bx) as [p|]; cbn [app] in HO.
+  - eapply wp_deallocate_raw; [exact HO | exact HQ].
+  - apply safe_ret. apply HQ. exact HO.
+Qed.
+
+Theorem wp_divisor_value x F m Q :
+  Own (tblks x ++ F) m -> TargInv x -> is_ref x = false -> OQ F Q -> safe (divisor_value w M x) m Q.
+Proof.
+  intros HO Hx Hr HQ. destruct x as [dw|bf|dw|ws]; cbn [divisor_value tblks app is_ref] in *; try discriminate.
+  - destruct (dw =? 0); apply safe_ret; apply HQ; cbn [rblks from_dword app]; auto. split; [exact HO | apply ReprInv_from_dword].
+  - apply safe_bind. eapply wp_into_boxed_slice; [exact HO|]. intros bx m1 HO1 E1.
+    apply safe_bind. eapply wp_bfrom; [exact HO1|]. intros nb m2 HO2 E2 HB2.
+    apply safe_bind. eapply wp_fb; [exact HO2 | exact HB2 |]. intros r m3 HO3 HR.
+    apply safe_bind. eapply wp_drop_box; [apply Own_swap_app'; exact HO3|]. intros m4 HO4.
+    apply safe_ret. apply HQ. cbn. auto.
+  - destruct (dw =? 0); apply safe_ret; apply HQ; cbn [rblks from_dword app]; auto. split; [exact HO | apply ReprInv_from_dword].
+Qed.
+
 (* ------------------------------------------------------------------ the sign layer (ubig / ibig operators) *)
 Lemma wp_signed_add a b s F m Q :
   Own (tblks a ++ tblks b ++ F) m -> TargInv a -> TargInv b -> OQ F Q ->
